@@ -112,7 +112,7 @@ def window_cells(shape, base, L, ring=2):
     return sorted(set(out))
 
 
-def window_safe(shape, base, L, ring=3):
+def window_safe(shape, base, L, ring=4):
     """the enlarged window stays clear of lon +-180 (D12) and of the poles (Coordinate wrapping)"""
     pts = outline_points(shape)
     w, h = cell_dims(base, L)
@@ -136,9 +136,14 @@ def star(rng, cx, cy, rx, ry, n, lo=0.45):
 
 def gen_single(rng, base, L, kind, scale):
     w, h = cell_dims(base, L)
-    sx, sy = w * rng.uniform(*scale), h * rng.uniform(*scale)
+    margin = 6                   # cells kept free between the shape and lon +-180 / lat +-88
+    sx = min(w * rng.uniform(*scale), 340 - 2 * margin * w)
+    sy = min(h * rng.uniform(*scale), 170 - 2 * margin * h)
+    if sx < w or sy < h:
+        raise RuntimeError('cells too large for a shape with a safe window')
     for _ in range(50):
-        cx, cy = rng.uniform(-170, 170), rng.uniform(-80, 80)
+        cx = rng.uniform(-175 + sx / 2 + margin * w, 175 - sx / 2 - margin * w)
+        cy = rng.uniform(-86 + sy / 2 + margin * h, 86 - sy / 2 - margin * h)
         if kind == 'poly':
             d = {'kind': 'poly', 'pts': star(rng, cx, cy, sx / 2, sy / 2, rng.randint(4, 9))}
         elif kind == 'polyhole':
